@@ -747,6 +747,74 @@ TYPED = [
         ("wait_find_hit", "__iv_wait_interest_find", ("cond", "if", 0), {}),
         ("wait_find_left", "__iv_wait_interest_find", ("cond", "if", 1), {}),
     ]),
+    # ---- decision points of the sequential core loop (linked to Core/CoreModel.v, CoreFd.v by Core/CoreLeafLink.v) ----
+    ("LeafCoreFd.v", "iv_fd.c", [
+        ("core_tc_armed", "iv_fd_timeout_check", ("cond", "if", 0), {}),
+        ("core_tc_keep", "iv_fd_timeout_check", ("cond", "if", 1), {}),
+        ("core_tc_same", "iv_fd_timeout_check", ("cond", "if", 2), {}),
+        ("core_tc_below", "iv_fd_timeout_check", ("cond", "if", 3), {}),
+        ("core_tc_count_inc", "iv_fd_timeout_check", ("stmt", "st->last_abs_count", 0), {}),
+        ("core_tc_arm", "iv_fd_timeout_check", ("cond", "if", 4), {}),
+        ("core_tc_have_abs", "iv_fd_timeout_check", ("cond", "if", 5), {}),
+        ("core_tc_count_one", "iv_fd_timeout_check", ("stmt", "st->last_abs_count", 1), {}),
+        ("core_tc_count_zero", "iv_fd_timeout_check", ("stmt", "st->last_abs_count", 2), {}),
+        ("core_par_rt", "iv_fd_poll_and_run", ("cond", "if", 1), {}),
+        ("core_par_count_reset", "iv_fd_poll_and_run", ("stmt", "st->last_abs_count", 0), {}),
+        ("core_disp_err", "iv_fd_poll_and_run", ("cond", "if", 2), {}),
+        ("core_disp_err_h", "iv_fd_poll_and_run", ("cond", "if", 3), {}),
+        ("core_disp_in", "iv_fd_poll_and_run", ("cond", "if", 4), {}),
+        ("core_disp_in_h", "iv_fd_poll_and_run", ("cond", "if", 5), {}),
+        ("core_disp_out", "iv_fd_poll_and_run", ("cond", "if", 6), {}),
+        ("core_disp_out_h", "iv_fd_poll_and_run", ("cond", "if", 7), {}),
+        ("core_ready_reset", "iv_fd_make_ready", ("stmt", "fd->ready_bands", 0), {}),
+        ("core_ready_or", "iv_fd_make_ready", ("stmt", "fd->ready_bands", 1), {}),
+    ]),
+    ("LeafCoreTask.v", "iv_task.c", [
+        ("core_task_main_list", "iv_task_register", ("cond", "if", 1), {}),
+        ("core_task_reg_numobjs", "iv_task_register", ("stmt", "st->numobjs", 0), {}),
+        ("core_task_unreg_numobjs", "iv_task_unregister", ("stmt", "st->numobjs", 0), {}),
+        ("core_run_tasks_epoch", "iv_run_tasks", ("stmt", "epoch", 0), {}),
+        ("core_run_tasks_stamp", "iv_run_tasks", ("stmt", "t->epoch", 0), {}),
+        ("core_run_tasks_numobjs", "iv_run_tasks", ("stmt", "st->numobjs", 0), {}),
+        ("core_task_init_epoch", "IV_TASK_INIT", ("stmt", "t->epoch", 0), {}),
+    ]),
+    ("LeafCoreMain.v", "iv_main_posix.c", [
+        ("core_main_quit_reset", "iv_main", ("stmt", "st->quit", 0), {}),
+        ("core_main_rt_init", "iv_main", ("stmt", "run_timers", 0), {}),
+        ("core_main_rt_test", "iv_main", ("cond", "if", 0), {}),
+        ("core_main_exit_test", "iv_main", ("cond", "if", 1), {}),
+        ("core_main_zero_sec", "iv_main", ("stmt", "_abs.tv_sec", 0), {}),
+        ("core_main_zero_nsec", "iv_main", ("stmt", "_abs.tv_nsec", 0), {}),
+    ]),
+    ("LeafCoreEpoll.v", "iv_fd_epoll.c", [
+        ("core_ep_failed", "iv_fd_epoll_poll", ("cond", "if", 0), {}),
+        ("core_ep_more", "iv_fd_epoll_poll", ("cond", "for", 0), {}),
+        ("core_ep_in", "iv_fd_epoll_poll", ("cond", "if", 3), {}),
+        ("core_ep_out", "iv_fd_epoll_poll", ("cond", "if", 4), {}),
+        ("core_ep_err", "iv_fd_epoll_poll", ("cond", "if", 5), {}),
+        ("core_ep_run_events", "iv_fd_epoll_poll", ("cond", "if", 6), {}),
+        ("core_ep_re_init", "iv_fd_epoll_poll", ("stmt", "run_events", 0), {}),
+        ("core_ep_re_set", "iv_fd_epoll_poll", ("stmt", "run_events", 1), {}),
+        ("core_et_rt_init", "iv_fd_epoll_timerfd_poll", ("stmt", "run_timers", 0), {}),
+        ("core_et_failed", "iv_fd_epoll_timerfd_poll", ("cond", "if", 0), {}),
+        ("core_et_rt_set", "iv_fd_epoll_timerfd_poll", ("stmt", "run_timers", 1), {}),
+        ("core_notify_changed", "iv_fd_epoll_notify_fd", ("cond", "if", 0), {}),
+        ("core_flush_unchanged", "__iv_fd_epoll_flush_one", ("cond", "if", 0), {}),
+        ("core_flush_add", "__iv_fd_epoll_flush_one", ("cond", "if", 1), {}),
+        ("core_flush_del", "__iv_fd_epoll_flush_one", ("cond", "if", 2), {}),
+        ("core_flush_ok", "__iv_fd_epoll_flush_one", ("cond", "if", 3), {}),
+        ("core_flush_regb", "__iv_fd_epoll_flush_one", ("stmt", "fd->registered_bands", 0), {}),
+    ]),
+    ("LeafCorePoll.v", "iv_fd_poll.c", [
+        ("core_po_more", "iv_fd_poll_activate_fds", ("cond", "for", 0), {}),
+        ("core_po_in", "iv_fd_poll_activate_fds", ("cond", "if", 0), {}),
+        ("core_po_out", "iv_fd_poll_activate_fds", ("cond", "if", 1), {}),
+        ("core_po_err", "iv_fd_poll_activate_fds", ("cond", "if", 2), {}),
+        ("core_pn_add", "iv_fd_poll_notify_fd", ("cond", "if", 0), {}),
+        ("core_pn_del", "iv_fd_poll_notify_fd", ("cond", "if", 1), {}),
+        ("core_pn_last", "iv_fd_poll_notify_fd", ("cond", "if", 2), {}),
+        ("core_pn_mod", "iv_fd_poll_notify_fd", ("cond", "if", 3), {}),
+    ]),
 ]
 
 _QUAL = re.compile(r"\b(const|volatile|restrict|__restrict)\b")
@@ -784,6 +852,21 @@ def c_sizeof(cfile, incdir, tytext):
     return _SIZEOF_CACHE[key]
 
 
+def c_enum_value(cfile, incdir, name):
+    """value of the enumeration constant `name` in the translation unit src/<cfile>, evaluated by clang"""
+    key = (cfile, "#enum " + name)
+    if key in _SIZEOF_CACHE:
+        return _SIZEOF_CACHE[key]
+    src = '#include "%s"\nlong long c2g_enum_probe = (long long)(%s);\n' % (os.path.join(REPO, "src", cfile), name)
+    p = subprocess.run(["clang", "-w", "-S", "-emit-llvm", "-o", "-", "-x", "c", "-"] + clang_flags(incdir), input=src,
+                       stdout=subprocess.PIPE, stderr=subprocess.PIPE, text=True)
+    m = re.search(r"@c2g_enum_probe\s*=.*\bglobal i64 (-?\d+)", p.stdout)
+    if p.returncode != 0 or not m:
+        raise Unsupported("enumeration constant %s could not be evaluated (clang: %s)" % (name, p.stderr[-200:]))
+    _SIZEOF_CACHE[key] = int(m.group(1))
+    return _SIZEOF_CACHE[key]
+
+
 def ctype(tnode):
     """('int', signed, bits) | ('ptr', pointee text) | ('other', text)"""
     tnode = tnode or {}
@@ -791,6 +874,8 @@ def ctype(tnode):
     q = " ".join(_QUAL.sub(" ", q).split())
     if q.endswith("*"):
         return ("ptr", q[:-1].strip())
+    if re.search(r"\(\*\s*\)\s*\(", q):
+        return ("ptr", "function " + q)     # pointer to function: only its address (NULL or not, equality) is ever used
     if q in INT_TYPES:
         return ("int",) + INT_TYPES[q]
     return ("other", q)
@@ -1098,6 +1183,12 @@ class CTr:
         if k == "UnaryExprOrTypeTraitExpr" and n.get("name") == "sizeof":
             t = n["argType"]["qualType"] if "argType" in n else self.qual(self.skip(n["inner"][0]))
             c = c_sizeof(self.cfile, self.incdir, t)
+            return V(zlit(c), ty, "Z", c)
+        if k == "DeclRefExpr" and n.get("referencedDecl", {}).get("kind") == "EnumConstantDecl" and ty[0] == "int":
+            # an enumeration constant (EPOLLIN ...): its value is evaluated by clang for the current source, like sizeof
+            c = c_enum_value(self.cfile, self.incdir, n["referencedDecl"]["name"])
+            if not c_fits(c, ty[1], ty[2]):
+                raise Unsupported("enumeration constant %s = %d does not fit its type" % (n["referencedDecl"]["name"], c))
             return V(zlit(c), ty, "Z", c)
         if k in ("DeclRefExpr", "MemberExpr"):
             rd = n.get("referencedDecl", {})
